@@ -39,8 +39,9 @@ NTeams(shape) == IF shape = "1-1-2" THEN 3 ELSE 2
 Bad(b, fb) == <<PNone, PInt("3"), PFloat("2.5"), PStr("abc"), PTuple(<<PInt("1"), PInt("2")>>), PV("dict", ""), PV("set", ""),
                 PV("obj", "object"), PList(<<>>), PList(<<PList(<<PInt("1")>>), PList(<<PInt("2")>>)>>), L(fb + 1), L(b + 4),
                 PList(<<L(b + 4)>>), PBool(TRUE), PInt("-2"), PFloat("-0.0"), PFloat("1e+16"),
-                PV("numlike", "2"), PV("numlike", "1"), PV("numlike", "0")>>     \* Decimal objects equal to an element of DefaultSel
-NBad == 20
+                PV("numlike", "2"), PV("numlike", "1"), PV("numlike", "0"),       \* Decimal objects equal to an element of DefaultSel
+                PStr("2"), PStr("7.5")>>                                           \* strings a float() would parse
+NBad == 22
 
 RECURSIVE Subst(_, _, _)
 Subst(p, path, val) == IF path = <<>> THEN val
